@@ -336,6 +336,19 @@ func (vc *VC) call(in ssa.Instruction, cc *ssa.CallCommon, h *Heap) []string {
 	} else {
 		callee = cc.StaticCallee()
 	}
+	// callees the contract under verification declares opaque: unknown code
+	if root := vc.root(); vc.parent == nil && root.ct != nil && len(root.ct.Opaque) > 0 {
+		sn := ""
+		if callee != nil {
+			sn = callee.Name()
+		} else if cc.IsInvoke() {
+			sn = cc.Method.Name()
+		}
+		if sn != "" && root.ct.Opaque[sn] {
+			vc.havocCall(h, "callee "+sn+" declared opaque at "+vc.pos(in.Pos()), in)
+			return fresh()
+		}
+	}
 	// contract on the callee?
 	if callee != nil {
 		key := funcKey(callee)
